@@ -605,11 +605,15 @@ def oracle_aux(ctx):
         ctx.count("aux-state-not-generic")
         return
     start = int(rng.integers(0, 4))
-    for k in range(2):
-        sc = SCHEMES[(start + k) % 4]
+    runs = [(SCHEMES[(start + k) % 4], bool(rng.random() < 0.5)) for k in range(2)]
+    # the operator on the PHYSICAL tree applied to a state on the doubled tree is the configuration in which state and
+    # operator trees differ: every scheme's index bookkeeping is asked for it in turn (by case index, not by a coin)
+    forced = (SCHEMES[(ctx.idx // 8) % 4], True)
+    if forced not in runs:
+        runs.append(forced)
+    for sc, on_p_tree in runs:
         imag = bool(rng.random() < 0.5)
         mode = mode_of(imag)
-        on_p_tree = bool(rng.random() < 0.5)
         ctx.cls(f"aux-space:{sc}|{mode}", "aux-space:ttno-on-physical-tree" if on_p_tree else "aux-space:ttno-on-doubled-tree")
         order_p = order_of(sc, complete)
         x = step_size(ctx, sc, order_p, imag)
